@@ -661,8 +661,6 @@ template<typename T, typename K> struct DnExec {
     ctx.require(cnt == s.get_num_retained(), fp("iteration-count-vs-num-retained").c_str(), std::to_string(cnt) + " vs " + std::to_string(s.get_num_retained()) + w);
     int lobs = 0; while ((1ULL << lobs) < maxw) lobs++; lobs += 1;
     ctx.require(s.get_num_retained() <= static_cast<u64>(k) * static_cast<u64>(lobs + 1), fp("retained-above-k-times-levels").c_str(), std::to_string(s.get_num_retained()) + " k=" + std::to_string(k) + " levels>=" + std::to_string(lobs) + w);
-    // a sketch that was only ever updated compacts for the first time when the (k+1)-th point arrives: up to k points it is exact, whatever else was attempted
-    if (!n.merged && n.pts.size() <= k) ctx.require(cnt == n.pts.size() && !any_heavy && !s.is_estimation_mode(), fp("compacted-before-capacity-was-exceeded").c_str(), std::to_string(cnt) + " retained of " + std::to_string(n.pts.size()) + " points, k=" + std::to_string(k) + w);
     const bool compacted = n.pts.size() > cnt || any_heavy;
     if (compacted) ctx.require(s.is_estimation_mode(), fp("estimation-mode-false-after-compaction").c_str(), w);
     if (n.pts.empty()) { bool t = false; try { s.get_estimate(point(1)); } catch (const std::exception&) { t = true; } ctx.require(t, fp("empty-sketch-estimate-not-rejected").c_str(), w); return; }
@@ -692,9 +690,18 @@ template<typename T, typename K> struct DnExec {
         case A_REFUSED: {
           // half of the refusals are placed on the capacity boundary: the sketch is topped up to exactly k points first
           if ((s.c & 4) && !n.merged && n.pts.size() < k) { while (n.pts.size() < k) { std::vector<T> x = point(s.b * 100000 + next++); V v0(x.begin(), x.end(), talloc<T>(1)); n.sk->update(v0); n.pts.push_back(x); } ctx.probe("refusal_on_capacity_boundary"); }
+          // a refused operation has no effect: the complete observation (n, retained points with weights, mode, estimate) is the same before and after
+          auto snapshot = [&]() { std::string o = std::to_string(n.sk->get_n()) + "/" + std::to_string(n.sk->get_num_retained()) + "/" + std::to_string(n.sk->is_estimation_mode()) + ":"; std::vector<std::string> e;
+            for (auto it = n.sk->begin(); it != n.sk->end(); ++it) { std::vector<T> pt((*it).first.begin(), (*it).first.end()); e.push_back(pstr(pt) + "*" + std::to_string((*it).second)); } std::sort(e.begin(), e.end()); for (auto& x : e) o += x + ";";
+            if (!n.pts.empty()) o += hexd(n.sk->get_estimate(point(s.b + 5))); return o; };
+          const std::string before = snapshot();
           std::vector<T> bad(dim + 1, static_cast<T>(1)); V v(bad.begin(), bad.end(), talloc<T>(1)); bool t = false; try { n.sk->update(v); } catch (const std::invalid_argument&) { t = true; }
+          const std::string after_update = snapshot();
           S other(k, dim + 1, K(), talloc<T>(1)); other.update(v); bool t2 = false; try { n.sk->merge(other); } catch (const std::invalid_argument&) { t2 = true; }
-          ctx.require(t && t2, fp("wrong-dimension-not-refused").c_str(), std::to_string(t) + std::to_string(t2)); ctx.fault("refused_op"); break; }
+          ctx.require(t && t2, fp("wrong-dimension-not-refused").c_str(), std::to_string(t) + std::to_string(t2));
+          if (after_update != before) ctx.fail(fp("refused-update-changed-the-sketch"), "before " + before.substr(0, 60) + " after " + after_update.substr(0, 60));
+          if (snapshot() != before) ctx.fail(fp("refused-merge-changed-the-sketch"), "");
+          ctx.fault("refused_op"); break; }
         case A_COPY: { Node& d = nodes[static_cast<size_t>(s.b) % nodes.size()]; if (&d != &n) { d.sk.reset(new S(*n.sk)); d.pts = n.pts; d.merged = n.merged; } break; }
         default: break;
       }
